@@ -42,12 +42,11 @@ func (m *Mutex) Unlock() {
 }
 
 func (m *Mutex) TryLock() bool {
-	if sched.YieldLock(uintptr(unsafe.Pointer(m)), sched.KTryLock) {
-		if !sched.TryGrant(uintptr(unsafe.Pointer(m)), false) {
-			return false
+	if sim, ok := sched.YieldLock(uintptr(unsafe.Pointer(m)), sched.KTryLock); sim {
+		if ok {
+			m.mu.Lock()
 		}
-		m.mu.Lock()
-		return true
+		return ok
 	}
 	return m.mu.TryLock()
 }
@@ -77,23 +76,21 @@ func (m *RWMutex) RUnlock() {
 }
 
 func (m *RWMutex) TryLock() bool {
-	if sched.YieldLock(uintptr(unsafe.Pointer(m)), sched.KTryLock) {
-		if !sched.TryGrant(uintptr(unsafe.Pointer(m)), false) {
-			return false
+	if sim, ok := sched.YieldLock(uintptr(unsafe.Pointer(m)), sched.KTryLock); sim {
+		if ok {
+			m.mu.Lock()
 		}
-		m.mu.Lock()
-		return true
+		return ok
 	}
 	return m.mu.TryLock()
 }
 
 func (m *RWMutex) TryRLock() bool {
-	if sched.YieldLock(uintptr(unsafe.Pointer(m)), sched.KTryLock) {
-		if !sched.TryGrant(uintptr(unsafe.Pointer(m)), true) {
-			return false
+	if sim, ok := sched.YieldLock(uintptr(unsafe.Pointer(m)), sched.KTryRLock); sim {
+		if ok {
+			m.mu.RLock()
 		}
-		m.mu.RLock()
-		return true
+		return ok
 	}
 	return m.mu.TryRLock()
 }
